@@ -58,3 +58,12 @@ package blobclient
 //@   requires c != nil && c.resolver != nil && dst != nil
 //@   modifies *
 //@   ensures exactly_once: result == nil ==> dst.nw == old(dst.nw) + bsize(d.hex)
+
+// ---- C33, remote side: uploading a blob to an origin cluster -------------------------------------
+// The cluster upload reports success only if some origin accepted the blob; when every origin fails
+// - with whatever mix of network errors and retryable statuses - the last failure is returned.
+//@ func clusterClient.UploadBlob
+//@   requires c != nil && c.resolver != nil && blob != nil
+//@   modifies *
+//@   ensures success_means_an_origin_took_it: err == nil ==> (exists cl Client :: (d.hex in cl.uploaded))
+//@   loop 0 invariant failed_so_far: (rangeindex >= 0 ==> err != nil) && 0 - 1 <= rangeindex && rangeindex < len(clients) && len(clients) >= 1 && (forall j int :: 0 <= j && j < len(clients) ==> clients[j] != nil) && blob != nil
